@@ -3,6 +3,7 @@ from __future__ import annotations
 
 import itertools
 import math
+import traceback
 import warnings
 from fractions import Fraction
 
@@ -317,6 +318,281 @@ def fam_unify(chk, tier):
     _materialize._LOWER_CACHE.clear()
 
 
+# ---------------------------------------------------------------------------------------------------------------------
+# DECISION LAYER of unify_chunks_expr vs the Gallina model UnifyDecide.unify_decide
+DHEADER = "From DA Require Import PyBase Unify UnifyDecide.\nOpen Scope Z_scope.\n"
+POL = {"auto": "PAuto", "coarse": "PCoarse", "refine": "PRefine"}
+CASE_T = "policy * option Z * list operand * option chunkmap"
+CHK_EXACT = (
+    "Definition chk (c : policy * option Z * list operand * option chunkmap) : bool :=\n"
+    "  let '(pol, lim, ops, want) := c in\n"
+    "  same_dict (unify_decide rat_cmp (fun _ => 0%nat) pol lim ops) want.")
+# a case is ROBUST when forcing every cost comparison that is within 1e-9 (relative) of a tie to <, = or > leaves the
+# model's answer unchanged: only then can float rounding in the implementation not explain a mismatch
+CHK_ROBUST = (
+    "Definition near (a b : rat) : bool := let x := fst a * snd b in let y := fst b * snd a in\n"
+    "  Z.abs (x - y) * 1000000000 <=? Z.max (Z.abs x) (Z.abs y).\n"
+    "Definition forced (f : comparison) (a b : rat) : comparison := if near a b then f else rat_cmp a b.\n"
+    "Definition chk (c : policy * option Z * list operand * option chunkmap) : bool :=\n"
+    "  let '(pol, lim, ops, want) := c in\n"
+    "  let r := unify_decide rat_cmp (fun _ => 0%nat) pol lim ops in\n"
+    "  forallb (fun f => same_dict (unify_decide (forced f) (fun _ => 0%nat) pol lim ops) r) [Lt; Eq; Gt].")
+
+
+def cop(o):
+    return (f"(mkop {cz(o['name'])} {clist(o['ind'])} {clist(o['chunks'], clist)} {clist(o['shape'])} "
+            f"{cz(o['nbytes'])} {cz(o['itemsize'])})")
+
+
+def cmap(m):
+    return "None" if m is None else "(Some " + clist(sorted(m.items()), lambda kv: ctuple(cz(kv[0]), clist(kv[1]))) + ")"
+
+
+def coarsen(rng, base):
+    new, acc = [], 0
+    for c in base:
+        acc += c
+        if rng.random() < 0.5:
+            new.append(acc)
+            acc = 0
+    if acc:
+        new.append(acc)
+    return tuple(new)
+
+
+def shifted(n, k, s):
+    body = [s] + [k] * ((n - s) // k)
+    rest = n - sum(body)
+    return tuple(body + ([rest] if rest else []))
+
+
+def gen_directed_case(rng):
+    """operands of very different weights around one shared label: exercises the refusal threshold
+    (moved > 4 * anchored), the feasibility threshold of the realignment and the size guard"""
+    n = rng.choice([6, 8, 12, 16, 24])
+    m = rng.choice([1, 2, 3, 4, 8, 16])
+    dts = ["u1", "i2", "i4", "f8", "c16"]
+    ops = []
+
+    def op(ind, chunks, shape):
+        ops.append({"ind": ind, "chunks": chunks, "shape": shape, "dtype": rng.choice(dts), "same_as": None})
+    other = rand_chunks(rng, m)
+    if rng.random() < 0.5:          # nested: fine vs coarse holders
+        k = rng.choice([d for d in (1, 2, 3, 4) if n % d == 0])
+        fine = (k,) * (n // k) if rng.random() < 0.6 else rand_chunks(rng, n)
+        coarse = coarsen(rng, fine)
+        lays = [fine, coarse, coarsen(rng, coarse) if rng.random() < 0.3 else fine]
+    else:                           # interleaved: a uniform grid and shifted copies (roll / overlap patterns)
+        k = rng.choice([2, 3, 4, 6])
+        k = min(k, n)
+        lays = [(k,) * (n // k) + ((n % k,) if n % k else ()), shifted(n, k, rng.randint(1, k)), shifted(n, k, rng.randint(1, k))]
+    nested = lays[0] != lays[1] and refines(lays[0], lays[1])
+    for pos, lay in enumerate(lays[:rng.choice([2, 2, 3])]):
+        r = rng.random()
+        if nested and rng.random() < 0.6:     # heavy fine panel, light coarse vector (the refusal situation)
+            r = 0.6 if pos == 0 else 0.1
+        if r < 0.45:
+            op((0,), (lay,), (n,))
+        elif r < 0.8:
+            op((0, 1), (lay, other), (n, m))
+        else:
+            op((1, 0), (rand_chunks(rng, m), lay), (m, n))
+    policy = rng.choice(["auto", "auto", "auto", "coarse"])
+    limit = rng.choice([None, None, 8, 16, 32, 64, 128, 512, "1kiB"])
+    return ops, policy, limit
+
+
+def gen_decide_case(rng):
+    """operand descriptions: dict(ind, chunks, shape, dtype, same_as)"""
+    if rng.random() < 0.35:
+        return gen_directed_case(rng)
+    nlab = rng.choice([1, 2, 2, 3, 4])
+    dims = {j: rng.choice([1, 2, 3, 4, 5, 6, 6, 8, 8, 12, 12, 24]) for j in range(nlab)}
+    if rng.random() < 0.04:
+        dims[rng.randrange(nlab)] = 0      # an empty axis: its only layout is (0,)
+    pools = {j: (related_layouts(rng, n) if n else [(0,)]) for j, n in dims.items()}
+    nops = rng.choice([1, 2, 2, 2, 3, 3])
+    ops = []
+    for k in range(nops):
+        if ops and rng.random() < 0.08:
+            i = rng.randrange(len(ops))
+            i = ops[i]["same_as"] if ops[i]["same_as"] is not None else i
+            ops.append(dict(ops[i], same_as=i))   # the same expression twice (the `seen` set)
+            continue
+        rank = min(nlab, rng.choice([1, 1, 2, 2, 3]))
+        r = rng.random()
+        if r < 0.6:
+            ind = sorted(rng.sample(range(nlab), rank))           # elemwise-like: ascending labels
+            if rng.random() < 0.5:
+                ind = list(range(nlab - rank, nlab))              # trailing alignment
+        else:
+            ind = rng.sample(range(nlab), rank)                   # blockwise-like: any order
+        shape, chunks = [], []
+        for j in ind:
+            if rng.random() < 0.12:
+                shape.append(1); chunks.append((1,))
+            else:
+                shape.append(dims[j]); chunks.append(rng.choice(pools[j]))
+        ops.append({"ind": tuple(ind), "chunks": tuple(chunks), "shape": tuple(shape),
+                    "dtype": rng.choice(["u1", "i2", "i4", "f8", "f8", "c16"]), "same_as": None})
+    if rng.random() < 0.03 and all(o["same_as"] is None for o in ops):   # malformed stream: one axis disagrees about the length of its label
+        o = ops[rng.randrange(len(ops))]
+        n_ax = rng.randrange(len(o["ind"]))
+        n = o["shape"][n_ax] + rng.choice([1, 2])
+        sh, ch = list(o["shape"]), list(o["chunks"])
+        sh[n_ax], ch[n_ax] = n, rand_chunks(rng, n)
+        o.update(shape=tuple(sh), chunks=tuple(ch), malformed=True)
+    policy = rng.choice(["auto", "auto", "coarse", "refine"])
+    limit = rng.choice([None, None, 0, 4, 16, 64, 256, 1024, "1kiB", "512MiB"])
+    return ops, policy, limit
+
+
+DECIDE_CORPUS = [
+    # (T4) the realignment tie-break is the lexicographically smallest layout
+    ([{"ind": (0,), "chunks": ((1, 3),), "shape": (4,), "dtype": "f8"}, {"ind": (0,), "chunks": ((2, 2),), "shape": (4,), "dtype": "f8"}], "auto", None),
+    ([{"ind": (0,), "chunks": ((3, 1),), "shape": (4,), "dtype": "f8"}, {"ind": (0,), "chunks": ((2, 2),), "shape": (4,), "dtype": "f8"}], "auto", None),
+    # limit 0 is falsy: the size guard is skipped
+    ([{"ind": (0,), "chunks": ((2, 2),), "shape": (4,), "dtype": "f8"}, {"ind": (0,), "chunks": ((1, 1, 1, 1),), "shape": (4,), "dtype": "f8"}], "coarse", 0),
+    ([{"ind": (0,), "chunks": ((2, 2),), "shape": (4,), "dtype": "f8"}, {"ind": (0,), "chunks": ((1, 1, 1, 1),), "shape": (4,), "dtype": "f8"}], "coarse", 8),
+    # cost-aware refusal: a light vector holds the coarse layout of label 0
+    ([{"ind": (0, 1), "chunks": ((2,) * 8, (4,) * 4), "shape": (16, 16), "dtype": "f8"}, {"ind": (0,), "chunks": ((8, 8),), "shape": (16,), "dtype": "f8"}], "auto", None),
+]
+
+
+def fam_decide(chk, tier):
+    import dask_array as da
+    from dask_array._expr import unify_chunks_expr
+    rng = chk.rng
+    N = 30000 if tier == "thorough" else 2500
+    inputs = [(list(map(dict, ops)), pol, lim) for ops, pol, lim in DECIDE_CORPUS]
+    for o_list, _, _ in inputs:
+        for o in o_list:
+            o.setdefault("same_as", None)
+    # exhaustive small scope: two 1-d operands over every pair of compositions of n <= 5, equal and unequal weights
+    for n in range(2, (6 if tier == "thorough" else 5) + 1):
+        comps = [c for c in compositions(n)]
+        for a, b in itertools.product(comps, comps):
+            for dts in (("f8", "f8"), ("u1", "f8")):
+                inputs.append(([{"ind": (0,), "chunks": (a,), "shape": (n,), "dtype": dts[0], "same_as": None},
+                                {"ind": (0,), "chunks": (b,), "shape": (n,), "dtype": dts[1], "same_as": None}],
+                               "auto", None))
+    for _ in range(N):
+        inputs.append(gen_decide_case(rng))
+    cases, kept = [], []
+    skipped_exc = 0
+    for ops_d, policy, limit in inputs:
+        arrs, names = [], {}
+        for k, o in enumerate(ops_d):
+            if o.get("same_as") is not None:
+                arrs.append(arrs[o["same_as"]])
+            else:
+                arrs.append(da.from_array(np.full(o["shape"], k + 1, dtype=o["dtype"]), chunks=o["chunks"]))
+        args = []
+        for a, o in zip(arrs, ops_d):
+            args += [a.expr, o["ind"]]
+        cfg = {"array.unify-chunks-policy": policy, "array.unify-chunks-limit": limit}
+        lim_bytes = dask.utils.parse_bytes(limit) if isinstance(limit, str) else limit
+        desc = {"operands": [{"ind": o["ind"], "chunks": o["chunks"], "shape": o["shape"], "dtype": o["dtype"]} for o in ops_d],
+                "policy": policy, "limit": limit}
+        with dask.config.set(cfg), warnings.catch_warnings():
+            warnings.simplefilter("ignore")
+            try:
+                chunkss, arrays, changed = unify_chunks_expr(*args, warn=False)
+                want = {int(j): tuple(int(x) for x in c) for j, c in chunkss.items()}
+            except ValueError as e:
+                want, arrays = None, None
+                frames = [f.name for f in traceback.extract_tb(e.__traceback__)]
+                if "rechunk" in frames:
+                    # the DECISION was taken; the final a.rechunk(..) of an operand whose axis length disagrees raised
+                    chk.count("decide:raised-after-decision(rechunk of a malformed operand)")
+                    continue
+            except Exception as e:  # noqa: BLE001
+                skipped_exc += 1
+                chk.violation("unify_chunks_expr raised " + type(e).__name__ + ": " + str(e)[:120], desc,
+                              signature={"fn": "unify_chunks_expr", "class": "raises-" + type(e).__name__})
+                continue
+        malformed = any(o.get("malformed") for o in ops_d)
+        chk.count(f"decide:{policy}:{'limit' if lim_bytes else ('limit0' if lim_bytes == 0 else 'nolimit')}:"
+                  f"{'raises' if want is None else 'ok'}" + (":malformed" if malformed else ""))
+        chk.case(("decide", repr(desc)), nontrivial=want is not None and len({o['chunks'] for o in ops_d}) > 1,
+                 sample={**desc, "decided": want})
+        recs = []
+        for a, o in zip(arrs, ops_d):
+            names.setdefault(a.expr._name, len(names))
+            recs.append({"name": names[a.expr._name], "ind": o["ind"], "chunks": o["chunks"], "shape": o["shape"],
+                         "nbytes": int(a.nbytes), "itemsize": int(a.dtype.itemsize)})
+        cases.append(ctuple(POL[policy], copt(lim_bytes), clist(recs, cop), cmap(want)))
+        kept.append((desc, want))
+        if want is None or malformed:
+            continue
+        # ---- which decision branches fired (input distribution): re-decide under the other policies / without limit
+        def redecide(pol, lim):
+            with dask.config.set({"array.unify-chunks-policy": pol, "array.unify-chunks-limit": lim}), warnings.catch_warnings():
+                warnings.simplefilter("ignore")
+                try:
+                    return {int(j): tuple(int(x) for x in c) for j, c in unify_chunks_expr(*args, warn=False)[0].items()}
+                except ValueError:
+                    return None
+        fine = redecide("refine", None)
+        if policy != "refine":
+            nolim = redecide(policy, None) if lim_bytes else want
+            coarse = redecide("coarse", None)
+            if nolim != want:
+                chk.count("decide:branch:size-guard-fell-back-to-refinement")
+            if policy == "auto" and nolim is not None and coarse is not None and nolim != coarse:
+                for j in nolim:
+                    if nolim[j] != coarse[j]:
+                        chk.count("decide:branch:" + ("merge-refused" if fine and nolim[j] == fine[j] else "realigned-to-an-operand-layout"))
+            if nolim is not None and fine is not None and any(len(nolim[j]) < len(fine[j]) for j in nolim):
+                chk.count("decide:branch:some-label-coarser-than-refinement")
+        # ---- property oracles on the REAL output
+        problems = []
+        for j, c in want.items():
+            mine = [(o["chunks"][n], o["shape"][n]) for o in ops_d for n, jj in enumerate(o["ind"]) if jj == j]
+            g = {d for d, _ in mine}
+            g2 = g - {(1,)} if len(g) > 1 else g
+            union = set().union(*[bounds(d) for d in g2])
+            is_common = sum(c) == sum(next(iter(g2))) and bounds(c) == union and (all(x > 0 for x in c) or any(0 in d for d in g2))
+            if c not in g and not is_common:                                                # (T1)
+                problems.append(f"label {j}: decided layout {c} is neither an operand's layout nor the common refinement")
+            if any(sum(c) != n for _, n in mine if n > 1):                                  # (T1) total length
+                problems.append(f"label {j}: decided layout {c} does not add up to the operands' axis lengths")
+            if policy == "refine" and not is_common:                                        # (T3)
+                problems.append(f"label {j}: refine policy decided {c}, not the common refinement")
+        for a_old, a_new, o in zip(arrs, arrays, ops_d):                                    # (T2) on the rechunked operands
+            own, new = largest_block_bytes(a_old), largest_block_bytes(a_new)
+            for n_ax, j in enumerate(o["ind"]):
+                if o["shape"][n_ax] > 1 and tuple(a_new.chunks[n_ax]) != want[j]:
+                    problems.append(f"operand axis {n_ax} was not brought to the decided layout of label {j}")
+            if policy == "refine" and new > own:
+                problems.append(f"refine policy grew a block from {own} to {new} bytes")
+            if lim_bytes is not None and new > max(own, lim_bytes):
+                sig = {"fn": "unify_chunks_expr", "class": "limit-zero-disables-size-guard"} if lim_bytes == 0 else \
+                    {"fn": "unify_chunks_expr", "policy": policy, "class": "growth-above-limit"}
+                chk.violation(f"operand block grew from {own} to {new} bytes above max(own, unify-chunks-limit={lim_bytes})",
+                              {**desc, "decided": want}, signature=sig)
+        if problems:
+            chk.violation("; ".join(sorted(set(problems))[:4]), {**desc, "decided": want},
+                          signature={"fn": "unify_chunks_expr", "class": "decision", "policy": policy})
+    mism, _ = coq_eval_cases(DHEADER, CASE_T, CHK_EXACT, cases, chunk=250)
+    near = set()
+    if mism:
+        sub = [cases[i] for i in mism]
+        fragile, _ = coq_eval_cases(DHEADER, CASE_T, CHK_ROBUST, sub, chunk=250)
+        near = {mism[i] for i in fragile}
+    chk.count("decide:skipped-float-near-tie", len(near))
+    chk.extra["decide_skipped_near_ties"] = len(near)
+    chk.extra["decide_cases"] = len(cases)
+    real = [i for i in mism if i not in near]
+    for i in real[:5]:
+        desc, want = kept[i]
+        model = coq_eval_expr(DHEADER, [f"let '(pol, lim, ops, want) := {cases[i]} in unify_decide rat_cmp (fun _ => 0%nat) pol lim ops"])[0]
+        chk.tie_break("correspondence:unify_chunks_expr/unify_decide", {**desc, "impl": want, "model": model})
+    if len(real) > 5:
+        chk.tie_break("correspondence:unify_chunks_expr/unify_decide:more", {"count": len(real)})
+    chk.traces_validated += len(cases) - len(mism)
+
+
 def replay(path):
     import json
     print(open(path).read())
@@ -330,8 +606,17 @@ def run(chk: Check):
                 "Gallina models of common_blockdim / coarse_blockdim / moved_fraction (exact rational vs float within 1 ulp); "
                 "unify_chunks_expr on real operands x 3 policies x limits checked against the property (alignment, refine-only-"
                 "splits, block growth bound, values through lowering); non-trivial = more than one distinct layout / unification changed an operand")
-    chk.assumptions = ["set iteration order in coarse_blockdim's min(..., key=len) tie-break is an oracle argument of the model"]
+    chk.rule += ("; DECISION LAYER: 1-3 operands x rank 1-3 x shared/broadcast/permuted labels x nested/interleaved/shifted "
+                 "layouts x dtypes x 3 policies x limits (None, 0, small, large, strings) -> the `chunkss` decided by the real "
+                 "unify_chunks_expr compared exactly with the Gallina model unify_decide (exact rational costs); T1/T2/T3 checked "
+                 "on the real outputs")
+    chk.assumptions = ["set iteration order in coarse_blockdim's min(..., key=len) tie-break is an oracle argument of the model",
+                       "unify_decide: float costs (nbytes * moved_fraction) are exact rationals in the model; a mismatching case is "
+                       "skipped (and counted: decide_skipped_near_ties) only when forcing every cost comparison within 1e-9 relative "
+                       "of a tie changes the model's answer",
+                       "unify_decide models known chunk sizes, operands with an index tuple, no ArrayBlockwiseDep"]
     chk.run_proofs()
     fam_blockdims(chk, common_blockdim, coarse_blockdim, chk.tier)
     fam_moved_fraction(chk, moved_fraction, chk.tier)
     fam_unify(chk, chk.tier)
+    fam_decide(chk, chk.tier)
